@@ -119,6 +119,18 @@ impl Subscriber {
     }
 
     pub fn notify(&self, key: ConfigKey) {
+        #[cfg(feature = "verif_hooks")]
+        if let Some(set) = self.listener.get(&key) {
+            let mut clients: Vec<&str> = set.iter().map(|c| c.as_str()).collect();
+            clients.sort();
+            crate::verif_hooks::emit(
+                "NotifyConfig",
+                &format!(
+                    "\"key\":\"{}|{}|{}\",\"clients\":{:?}",
+                    key.data_id, key.group, key.tenant, clients
+                ),
+            );
+        }
         if let Some(conn_manage) = &self.conn_manage {
             if let Some(set) = self.listener.get(&key) {
                 conn_manage.do_send(BiStreamManageCmd::NotifyConfig(key, set.clone()));
